@@ -592,6 +592,21 @@ pub fn run(suite: &str, thorough: bool, seed: u64, shard: usize, nshards: usize,
                     files.push(("dup3".to_owned(), "package a;\nparcelable Foo {}\n".to_owned()));
                     files.push(("broken".to_owned(), "package a;\ninterface Broken { void f( ; oops\n".to_owned()));
                 }
+                if i % 4 == 2 {
+                    // many diagnostics in one file (more than 20), several of them hash-ordered import
+                    // warnings, and pairs that start at the same offset (`List x`: raw list + missing direction)
+                    let mut big = String::from("package big;\n");
+                    let nimp = r.range(18, 30);
+                    for k in 0..nimp {
+                        big.push_str(&format!("import u{}.Unknown{};\n", k % 7, k));
+                    }
+                    big.push_str("interface Big {\n");
+                    for k in 0..r.range(3, 8) {
+                        big.push_str(&format!("    void m{}(List x, Map y);\n", k));
+                    }
+                    big.push_str("}\n");
+                    files.push(("big".to_owned(), big));
+                }
                 proj.clear();
                 em.case(s, crate::store_ops::determinism_case(&files, &mut r));
             }
@@ -708,6 +723,14 @@ pub fn run(suite: &str, thorough: bool, seed: u64, shard: usize, nshards: usize,
                         let mut nd = old.clone();
                         nd.item = gen::gen_item(&mut r, &cfg, &pool, old.item.kind, &old.item.name);
                         nd.imports = (0..r.below(3)).map(|_| gen::gen_import(&mut r, &[])).collect();
+                        // its forward declarations change too: some of them name, fully qualified, what the
+                        // target file imports (a declaration in ANOTHER file defines nothing)
+                        nd.decls = (0..r.below(3)).map(|_| gen::gen_decl(&mut r, &cfg)).collect();
+                        for imp in proj[t].1.imports.iter() {
+                            if r.chance(1, 2) {
+                                nd.decls.push(doc::DeclDoc { annotations: vec![], path: imp.clone() });
+                            }
+                        }
                         proj2[k].1 = nd;
                         how = "rewrite other file (same package, name, kind)";
                     }
